@@ -24,10 +24,11 @@ TypeNames == {"plot", "text", "csv", "map", "rank", "maprank", "impact", "mapimp
 WithAgg == {"mae", "bias", "diff", "ratio", "rmse", "rmsf", "cmae", "obs", "fcst", "pit"}
 QuantileMetrics == {"quantile", "quantilecoverage", "quantilescore", "spread", "spreadskillratio"}
 
-\* option variants, applied where they are meaningful
+\* option variants, applied where they are meaningful; every diagram meets every -b event type (several draw one-sided events only and
+\* have to say so: after seed C19-i)
 Variants(m) ==
   {"plain"} \cup (IF m \in WithAgg THEN {"agg-median", "agg-0.9", "agg-count"} ELSE {})
-            \cup (IF m \in CatNames \cup ProbNames \cup {"within", "freq", "cond", "performance", "droc", "roc", "reliability"} THEN {"b-within", "b-below=", "b-=within", "b-=within=", "b-above=", "r-given", "r-single"} ELSE {})
+            \cup (IF m \in CatNames \cup ProbNames \cup {"within"} \cup DiagramNames THEN {"b-within", "b-below=", "b-=within", "b-=within=", "b-above=", "r-given", "r-single"} ELSE {})
             \cup (IF m \in QuantileMetrics THEN {"q-given", "q-single"} ELSE {})
             \cup (IF m \in DetNames THEN {"acc", "hist", "sort", "T-6"} ELSE {})
             \cup (IF m \in DiagramNames THEN {"q-edges", "r-q-edges"} ELSE {})      \* -q also gives the bin edges / levels of several diagrams
